@@ -97,6 +97,17 @@ func guard(f func() string) (s string) {
 	return f()
 }
 
+func hasDupNS(d *Doc, fi int) bool {
+	seen := map[string]bool{}
+	for _, ns := range d.Files[fi].NS {
+		if seen[ns.Lang] {
+			return true
+		}
+		seen[ns.Lang] = true
+	}
+	return false
+}
+
 func hasCollision(d *Doc, fi int) bool {
 	seen := map[string]bool{}
 	for _, j := range d.Files[fi].Includes {
@@ -228,7 +239,7 @@ func evaluate(d *Doc, out sink, r *vl.Rng) (fails []ofail, err error) {
 					of.class = "include-basename-collision"
 				}
 			}
-			if of.class == "namespace" {
+			if of.class == "namespace" && hasDupNS(d, i) {
 				of.class = "namespace-language-twice"
 			}
 			fails = append(fails, of)
@@ -561,7 +572,7 @@ func evalLookups(d *Doc, reach func(int) bool, ex func(op string) (string, strin
 				continue
 			}
 			class := "typedesc"
-			if stamped && !k.uuid {
+			if stamped && !k.uuid && k.konst {
 				class = "const-type-no-registry"
 			}
 			checkDenotes(class, what, fi, how, k.name, res, ident)
@@ -856,7 +867,7 @@ func run(repo, dir string, seed uint64, tier string) error {
 	// 2. generated programs
 	n := 500
 	if tier == "thorough" {
-		n = 3000
+		n = 2000
 	}
 	reported := map[string]bool{}
 	for i := 0; i < n; i++ {
